@@ -945,7 +945,11 @@ impl DefaultFunction {
                     })
                     .collect();
 
-                let i: u64 = i.try_into().unwrap();
+                // Constructor tags are carried as u64 by PlutusData; anything else cannot be
+                // represented.
+                let Ok(i) = u64::try_from(i) else {
+                    return Err(Error::OverflowError);
+                };
 
                 let constr_data = Data::constr(i, data_list);
 
